@@ -87,8 +87,8 @@ class ObsRunner(msglayer.Runner):
 
 
 def run_stack(script):
-    logging.getLogger("coap-server").setLevel(logging.CRITICAL)
-    logging.getLogger("coap").setLevel(logging.CRITICAL)
+    __import__("common").quiet(logging.getLogger("coap-server"))
+    __import__("common").quiet(logging.getLogger("coap"))
     r = ObsRunner(script)
     _, loop = vloop.run(r.main, max_time=1e7)
     groups, concrete, ticks = [[]], [], []
